@@ -227,6 +227,36 @@ def _c07_shared_context(f: Failure) -> bool:
     return f["kind"] == "request-sent-over-unverified-connection" and o.get("shared_caller_context_after_lax_cert_reqs") is True and o.get("route") == "manager-after-lax" and (o.get("det") or {}).get("mode") != "CERT_NONE"
 
 
+@finding("C13", "cut-inside-zero-padded-chunk-size-read-as-last-chunk")
+def _c13_zero_padded(f: Failure) -> bool:
+    """Both chunk readers (http.client's and urllib3's) take a size line with readline() and int(line, 16) without
+    requiring its CRLF: a stream that ends after the leading zero(s) of a zero-padded chunk size is read as the
+    terminating zero-size chunk."""
+    c = f["case"]
+    dmg = c.get("damage") or []
+    return f["kind"] == "damage-accepted-as-complete" and len(dmg) > 0 and dmg[0] == "cut-inside-zero-padded-chunk-size"
+
+
+# ---------------------------------------------------------------------------------- C06 -------
+@finding("C06", "forwarding-proxy-redirect-to-proxy-origin-keeps-credentials")
+def _c06_redirect_to_proxy_origin(f: Failure) -> bool:
+    """For plain-http destinations a ProxyManager hands out the pool of the proxy; the same-host test that decides about
+    stripping is made against that pool, i.e. against the proxy's origin instead of the origin of the request."""
+    o = f["observed"] or {}
+    return f["kind"] == "sensitive-header-forwarded" and o.get("client") == "proxy" and o.get("redirect_target_is_proxy_origin") is True and "forwarding_proxy_redirect_to" in (f["case"] or {})
+
+
+# ---------------------------------------------------------------------------------- C20 -------
+@finding("C20", "boundary-parameter-not-quoted")
+def _c20_boundary_not_quoted(f: Failure) -> bool:
+    """encode_multipart_formdata writes 'boundary=<boundary>' verbatim; a legal boundary with tspecials or a space (RFC
+    2046's own examples) would have to be a quoted-string for the header to name it."""
+    o = f["observed"] or {}
+    asked = o.get("asked")
+    token = set("!#$%&'*+-.^_`|~0123456789abcdefghijklmnopqrstuvwxyzABCDEFGHIJKLMNOPQRSTUVWXYZ")
+    return f["kind"] == "content-type-shape" and isinstance(asked, str) and str(o.get("why", "")).startswith("boundary parameter is neither") and any(c not in token for c in asked)
+
+
 # ---------------------------------------------------------------------------------- C09 -------
 @finding("C09", "non-http-connect-reply-surfaces-as-protocolerror")
 def _c09_garbage_connect_reply(f: Failure) -> bool:
